@@ -171,6 +171,12 @@ func TestC08FailedTx(t *testing.T) {
 							rec.Label("candidate:refused-parameter-change")
 						}
 					}
+					if ci%4 == 3 && sim.W.Runtime != nil && sim.W.Spec.RtAccountBalance > 0 {
+						if sd := g.GenStrayCommitWithMessages(t); sd != nil {
+							d = sd
+							rec.Label(fmt.Sprintf("candidate:stray-commitment-with-runtime-messages:escrow-messages-allowed=%v", sim.W.Spec.RtEscrowMsgs))
+						}
+					}
 					if d.Mutated == "system-method" {
 						// a user-signed system method can never be part of a block that validators accept (C10 covers it)
 						rec.Discard("system-method-cannot-be-in-an-accepted-block")
